@@ -61,7 +61,9 @@ def main():
     finally:
         subprocess.call(["git", "-C", "/repo", "worktree", "remove", "--force", str(wt)])
         # generated tables were regenerated from the patched tree: restore the committed baseline
-        subprocess.call(["git", "-C", str(VERIF), "checkout", "--", "lean/PtGen"])
+        # (run_seeded.py runs several of these at once and restores once at the end)
+        if not os.environ.get("TRY_PATCH_NO_RESTORE"):
+            subprocess.call(["git", "-C", str(VERIF), "checkout", "--", "lean/PtGen"])
     return 0
 
 
